@@ -133,6 +133,26 @@ def run_tlc(module, cfg, workers=4, timeout=1800, name=None, env=None, extra=Non
     return res
 
 
+def run_apalache(module, inv, length=0, timeout=1800, name=None):
+    """Apalache bounded / symbolic check of `inv` (Init / Next of the module). Returns dict(ok, violated, wall, text)."""
+    name = (name or module) + "_%d" % os.getpid()
+    outd = os.path.join(OUT, "apalache_" + name)
+    cmd = ["timeout", str(timeout), "apalache-mc", "check", "--init=Init", "--next=Next", "--inv=" + inv, "--length=%d" % length,
+           "--out-dir=" + outd, module + ".tla"]
+    t0 = time.time()
+    p = subprocess.run(cmd, cwd=SPEC, capture_output=True, text=True)
+    wall = time.time() - t0
+    subprocess.run(["rm", "-rf", outd])
+    txt = p.stdout + p.stderr
+    if p.returncode == 124:
+        raise ToolError("Apalache timeout (%ss) on %s" % (timeout, module))
+    ok = "The outcome is: NoError" in txt and p.returncode == 0
+    violated = "The outcome is: Error" in txt and "violated" in txt
+    if not ok and not violated:
+        raise ToolError("Apalache failed on %s (rc=%d):\n%s" % (module, p.returncode, txt[-3000:]))
+    return {"ok": ok, "violated": violated, "wall": wall, "text": txt}
+
+
 def tail_nonreplay(txt, n=40):
     lines = [l for l in txt.splitlines() if not l.startswith('<<"REPLAY"')]
     return "\n".join(lines[-n:])
